@@ -22,6 +22,12 @@ import os, socket, time, sys
 
 if os.environ.get("VERIF_FAIL_IMPORT"):
     raise RuntimeError("VERIF_FAIL_IMPORT: this application cannot be imported")
+if os.environ.get("VERIF_SPAWN_HELPER"):
+    # an application that starts a long-lived helper process when it is imported, handing down whatever is inheritable
+    import subprocess
+    _helper = subprocess.Popen(["sleep", "25"], close_fds=False)
+    with open(os.path.join(os.path.dirname(os.path.abspath(__file__)), "helper-%d.pid" % os.getpid()), "w") as _f:
+        _f.write(str(_helper.pid))
 GEN = os.environ.get("VERIF_GEN", "g?")
 IMPORT_IDS = (os.getresuid(), os.getresgid(), tuple(sorted(os.getgroups())))
 GATE = os.environ.get("VERIF_GATE")
